@@ -273,6 +273,80 @@ def run_alloc(spec):
             if None in allids:
                 res.violation("id-not-assigned", f"{mode} {arg}")
         res.sample({"mode": spec["mode"], "runs": len(runs), "line_events": pre.nevents})
+        # members joining and leaving the group at the same time (what makegateway() and exit()/terminate() do to the
+        # group from different threads): nobody who joined and did not leave is missing, nobody who left is still there
+        mlines = imodel.function_lines(multi.Group._register, multi.Group._unregister)
+        if spec["mode"] == "sweep":
+            mruns = [("sweep", (f, ln, k)) for (f, ln) in mlines for k in (1, 2, 3)]
+            res.info["membership_sweep_lines"] = len(mlines)
+        else:
+            mruns = runs[: max(60, len(runs) // 4)]
+
+        class Member:
+            def __init__(self, id):
+                self.id = id
+
+            def __repr__(self):
+                return f"<member {self.id}>"
+
+        for mode, arg in mruns:
+            g = execnet.Group()
+            atexit.unregister(g._cleanup_atexit)
+            old = [Member(f"m{i}") for i in range(rng.choice((2, 4, 6)))]
+            for m in old:
+                g._register(m)
+            new = [Member(f"n{i}") for i in range(rng.choice((1, 3, 5)))]
+            half = len(old) // 2
+            errs = []
+            start = threading.Barrier(3)
+
+            def leave(ms):
+                try:
+                    start.wait()
+                    for m in ms:
+                        g._unregister(m)
+                except BaseException as e:  # noqa
+                    errs.append(repr(e))
+
+            def join_():
+                try:
+                    start.wait()
+                    for m in new:
+                        g._register(m)
+                except BaseException as e:  # noqa
+                    errs.append(repr(e))
+
+            if mode == "noise":
+                pre.set_noise(rng.getrandbits(32), rng.choice((0.05, 0.2, 0.5)))
+            elif mode == "pct":
+                pre.set_pct(rng.getrandbits(32), (len(old) + len(new)) * 8, rng.choice((1, 2, 3)), stall=0.01)
+            else:
+                pre.restart()
+                pre.set_sweep(arg[0], arg[1], arg[2], stall=0.03)
+            ths = [threading.Thread(target=leave, args=(old[:half],)), threading.Thread(target=leave, args=(old[half:],)),
+                   threading.Thread(target=join_)]
+            for t in ths:
+                t.start()
+            for t in ths:
+                t.join(20)
+            pre.off()
+            if mode == "sweep" and pre.fired:
+                res.count("membership_sweep_fired")
+            res.count("membership_runs")
+            ids = [m.id for m in g]
+            res.case(core.h64("members", mode, arg, len(old), len(new)))
+            label = f"{mode} {arg}: {len(old)} members leave in two threads while {len(new)} join"
+            if errs:
+                res.violation("register-unregister-raised", f"{label}: {errs[0]}")
+            if ids != [m.id for m in new]:
+                res.violation("membership-lost-update", f"{label}: iteration gives {ids}, expected {[m.id for m in new]}")
+            for i, m in enumerate(new):
+                if ids == [x.id for x in new] and (g[i] is not m or g[m.id] is not m or m.id not in g):
+                    res.violation("lookup-disagrees-with-iteration", f"{label}: {m.id}")
+            if len(g) != len(ids):
+                res.violation("len-disagrees-with-iteration", label)
+            if sorted(x.id for x in g._gateways_to_join) != sorted(x.id for x in old):
+                res.violation("membership-lost-update:to-join", f"{label}: left {[x.id for x in old]}, kept for joining {[x.id for x in g._gateways_to_join]}")
     finally:
         pre.uninstall()
     return res
